@@ -3,6 +3,23 @@ from .. import absint, util
 from ..absint import is_agg, agg_field
 
 
+def eval_bool(t, discr):
+    """value of a boolean term built from comparisons of discr(self) with constants, !, & and |, for discr(self) = discr"""
+    if t[0] == 'bool':
+        return t[1]
+    if t[0] == 'un' and t[1] == 'Not':
+        v = eval_bool(t[2], discr)
+        return None if v is None else (not v)
+    if t[0] == 'bin' and t[1] in ('Eq', 'Ne') and t[2] == ('discr', ('param', 1)) and t[3][0] == 'int':
+        return (discr == t[3][1]) == (t[1] == 'Eq')
+    if t[0] == 'bin' and t[1] in ('BitAnd', 'BitOr'):
+        a, b = eval_bool(t[2], discr), eval_bool(t[3], discr)
+        if a is None or b is None:
+            return None
+        return (a and b) if t[1] == 'BitAnd' else (a or b)
+    return None
+
+
 def run(ctx):
     _run(ctx)
     ctx.delegate("C06", ["C06.dispatch"], "C19.decode",
@@ -126,10 +143,16 @@ def _run(ctx):
                 continue
             pl = rows.get(code)
             if pl is None:
-                pl = dflt if (excl is not None and code not in excl) else []
+                pl = dflt.for_value(code) if excl is not None else []
             vals = set()
             for p in pl:
                 r = p.ret
+                if r[0] not in ('bool', 'int'):
+                    # a boolean expression over the discriminant (the last test of a chain returned without a branch):
+                    # evaluate it for this variant
+                    ev = eval_bool(r, code)
+                    if ev is not None:
+                        r = ('bool', ev)
                 if r[0] == 'bool':
                     vals.add(r[1])
                 elif r[0] == 'int':
@@ -159,7 +182,7 @@ def _run(ctx):
         for s in sp["shape_types"]:
             pl = rows.get(s["code"])
             if pl is None:
-                pl = dflt if (excl is not None and s["code"] not in excl) else []
+                pl = dflt.for_value(s["code"]) if excl is not None else []
             strs = set()
             for p in pl:
                 strs.update(util.strings_in_effects(p.eff))
